@@ -16,7 +16,7 @@ import (
 var Shapes = []string{
 	"text", "textcrlf", "html", "cyrillic", "cjk", "utf8big", "dna", "numeric", "base64",
 	"elfx86", "pe", "elfarm64", "elfbogus", "pebogus", "machobogus", "wav", "bmp", "ppm", "runs", "zeros",
-	"skewed", "raredom", "ramp255", "ramp256", "smallalpha", "periodic", "random", "magicmix", "repeatblocks", "sorted", "utf8dirty", "longruns", "farmatch", "crlfcut", "constchunks", "randtext", "bigvocab", "fsdstress", "ffmix",
+	"skewed", "raredom", "ramp255", "ramp256", "smallalpha", "periodic", "random", "magicmix", "repeatblocks", "sorted", "utf8dirty", "longruns", "farmatch", "crlfcut", "constchunks", "randtext", "bigvocab", "fsdstress", "ffmix", "wordlist",
 }
 
 var words = strings.Fields(`the of and to a in is that it was for on are as with his they at be this from have or by one had not but what all were
@@ -274,6 +274,21 @@ func Make(shape string, n int, seed int64) []byte {
 				}
 			}
 		}
+	case "wordlist":
+		// (almost surely) every word different: 6..11 random lower-case letters - a vocabulary that overflows every dictionary
+		// (word lists, logs full of unique identifiers)
+		for i := 0; len(b) < n; i++ {
+			ln := 6 + r.Intn(6)
+			for k := 0; k < ln; k++ {
+				b = append(b, byte('a'+r.Intn(26)))
+			}
+			if i%10 == 9 {
+				b = append(b, '\n')
+			} else {
+				b = append(b, ' ')
+			}
+		}
+		b = b[:n]
 	case "fsdstress":
 		// smooth ramps where the multimedia detector samples (so that delta coding is selected) and large jumps elsewhere
 		// (every byte then needs the 2-byte escape form: the output margin is exhausted)
